@@ -429,8 +429,18 @@ impl Linter for LintGroup {
             };
 
             let chunk_chars = document.get_span_content(&chunk_span);
-            let config_hash = self.hasher_builder.hash_one(&self.config);
-            let key = (chunk_chars.into(), config_hash);
+
+            // The pattern linters read the chunk's tokens, not just its characters: the same
+            // characters can be tokenized differently (by another parser, or in another context),
+            // so the tokens have to be part of the key as well.
+            let mut hasher = self.hasher_builder.build_hasher();
+            self.config.hash(&mut hasher);
+            for token in chunk {
+                token.kind.hash(&mut hasher);
+                (token.span.start - chunk_span.start).hash(&mut hasher);
+                (token.span.end - chunk_span.start).hash(&mut hasher);
+            }
+            let key = (chunk_chars.into(), hasher.finish());
 
             let mut chunk_results = if let Some(hit) = self.chunk_pattern_cache.get(&key) {
                 #[cfg(harper_verif)]
